@@ -47,6 +47,11 @@ impl Language for Scala {
             self.end_package_object(writable)?;
         }
 
+        // Constants cannot be generated yet: report them instead of silently dropping them.
+        for c in data.consts.iter() {
+            self.write_const(writable, c)?;
+        }
+
         if !data.structs.is_empty() || !data.enums.is_empty() {
             self.begin_package(writable)?;
             for s in data.structs.iter() {
@@ -157,8 +162,14 @@ impl Language for Scala {
         Ok(())
     }
 
-    fn write_const(&mut self, _w: &mut dyn Write, _c: &RustConst) -> std::io::Result<()> {
-        todo!()
+    fn write_const(&mut self, _w: &mut dyn Write, c: &RustConst) -> std::io::Result<()> {
+        Err(std::io::Error::new(
+            std::io::ErrorKind::Other,
+            format!(
+                "constants are not supported by the Scala backend yet: {}",
+                c.id.original
+            ),
+        ))
     }
 
     fn write_struct(&mut self, w: &mut dyn Write, rs: &RustStruct) -> std::io::Result<()> {
